@@ -4,12 +4,11 @@ use crate::support::*;
 use educe::Educe;
 use core::cmp::Ordering;
 #[derive(Educe)]
-#[repr(i64)]
-#[educe(PartialOrd, Ord, Eq, PartialEq)]
-pub enum T { B(A<0>) = 255, Zed = 128, None {  }, V1 = 3 }
+#[educe(PartialOrd, PartialEq, Ord, Eq)]
+pub enum T { V1 = 0 }
 
-pub fn values() -> Vec<T> { vec![T::B(A(0)), T::B(A(1)), T::B(A(7)), T::Zed, T::None {  }, T::V1] }
-pub fn show(x: &T) -> String { #[allow(unused_variables)] match x { T::B(p0) => format!("B({})", sv(p0)), T::Zed => format!("Zed()"), T::None {  } => format!("None()"), T::V1 => format!("V1()") } }
-pub fn o_disc(x: &T) -> i128 { match x { T::B(_) => 255, T::Zed => 128, T::None {  } => 129, T::V1 => 3 } }
-pub fn o_cmp(a: &T, b: &T) -> Ordering { match (a, b) { (T::B(a0), T::B(b0)) => { let c = ::core::cmp::Ord::cmp(a0, b0); if c != Ordering::Equal { return c; } Ordering::Equal }, (T::Zed, T::Zed) => {  Ordering::Equal }, (T::None {  }, T::None {  }) => {  Ordering::Equal }, (T::V1, T::V1) => {  Ordering::Equal }, _ => o_disc(a).cmp(&o_disc(b)) } }
+pub fn values() -> Vec<T> { vec![T::V1] }
+pub fn show(x: &T) -> String { #[allow(unused_variables)] match x { T::V1 => format!("V1()") } }
+pub fn o_disc(x: &T) -> i128 { match x { T::V1 => 0 } }
+pub fn o_cmp(a: &T, b: &T) -> Ordering { match (a, b) { (T::V1, T::V1) => {  Ordering::Equal } } }
 pub fn run(out: &mut Out) { let vs = values(); for (i, a) in vs.iter().enumerate() { for (j, b) in vs.iter().enumerate() { let e = o_cmp(a, b); let g = ::core::cmp::Ord::cmp(a, b); out.check(g == e, "ord_3", "cmp", || format!("cmp({}, {}) = {:?} expected {:?}", show(a), show(b), g, e)); let g2 = ::core::cmp::PartialOrd::partial_cmp(a, b); out.check(g2 == Some(e), "ord_3", "partial_is_some_cmp", || format!("partial_cmp({}, {}) = {:?} expected Some({:?})", show(a), show(b), g2, e)); } } }
